@@ -1,0 +1,33 @@
+//go:build verif
+
+// Verification hooks for property C10 (run number / run timestamps), second part: lets the harness
+// run the package's real transition objects (NewStartActivityTransition etc.) on a bare
+// Environment with a stand-in task manager. Add-only; compiled only with -tags verif.
+
+package environment
+
+import (
+	"github.com/AliceO2Group/Control/common/event"
+)
+
+// VerifC10RealTransition wraps a real transition object; Before runs right before its do().
+// check() is skipped (it only asks for a non-nil task manager).
+type VerifC10RealTransition struct {
+	T      Transition
+	Before func()
+}
+
+func (t VerifC10RealTransition) eventName() string { return t.T.eventName() }
+func (t VerifC10RealTransition) check() error      { return nil }
+func (t VerifC10RealTransition) do(env *Environment) error {
+	if t.Before != nil {
+		t.Before()
+	}
+	return t.T.do(env)
+}
+
+// VerifC10TasksStateChanged hands the environment the answer of the task manager to a transition
+// request (what envman does with a TasksStateChangedEvent): err == nil means all tasks moved.
+func (env *Environment) VerifC10TasksStateChanged(err error) {
+	env.stateChangedCh <- event.NewTasksStateChangedEvent(env.id, nil, err)
+}
